@@ -199,7 +199,7 @@ func execWithFaults(tr *Trace, variant FaultVariant, twin []commitPoint, stats *
 func init() {
 	ps := &PropSpec{
 		ID: "C14", Level: "fault_enumeration",
-		Verdict: []string{"c14.", "commit.fault-swallowed", "commit.fault-category", "live."},
+		Verdict: []string{"c14.", "commit.fault-swallowed", "commit.fault-category", "live.", "panic"},
 		Assumptions: []string{"positional faults of the order-relaxed commit with several workers replay exactly only in the variants that run under the controlled scheduler; the other variants use identity-based faults there"},
 		Rule: "for each sampled history (both commit flavours, reopen, multi-owner, nested) a fault-free dry run gives the number n_j of writes/deletes of every commit j; the history is then re-executed once per failing position e (commit j fails its ((e mod n_j)+1)-th write; every single position of every commit is enumerated in thorough, an evenly spread sample incl. first and last in quick), plus pairs of positions, faults persisting for 2 attempts, identity-based faults, worker counts {1,2,8} and both flavours; each failed attempt must return an external error wrapping the injected one, every change of the pre-commit write set must be pending or durable, reads must still match the model, and after retrying to success the registers must be byte-identical to the fault-free twin at that commit point and nothing owned may stay pending. Non-trivial = >= 1 failed attempt in a commit of >= 3 writes; distinct by trace hash",
 		ExpectedReach: []string{"c14.failed-attempt-checked", "c14.converged", "c14.fault-by-identity", "c14.fault-by-position", "c14.durable-after-failure", "commit.nfc", "commit.fc"},
